@@ -48,6 +48,12 @@ def layer_features(items, opts, li, nlayers, tag):
         f.append("layer>=100")
     if "stale-nodes" in tag:
         f.append("stale-nodes")
+    if mx == 0 and mx is not None:
+        f.append("upper-bound-at-origin")
+    if mn == 0 and "+moved" in tag:
+        f.append("lower-bound-moved-to-origin")
+    if items and all(float(it["t"]) < 0 for it in items):
+        f.append("all-targets-negative")
     if tag.startswith("near-touching"):
         f.append("near-touching")
     if tag.startswith("packing-"):
